@@ -34,13 +34,14 @@ def gen_family(seed, nstructs, fid):
     kinds_pool = []
     for si in range(nstructs):
         if not kinds_pool:
-            kinds_pool = LEAF_KINDS[:] + ["arr:char", "arr:long", "arr:ptr", "arr:fn", "arr:ushort", "arr:uchar", "arr:llong", "nested", "nested"]
+            kinds_pool = LEAF_KINDS[:] + ["arr:char", "arr:long", "arr:ptr", "arr:fn", "arr:ushort", "arr:uchar", "arr:llong", "nested", "nested",
+                                          "arr2:char", "arr2:int", "arr2:long", "arr2:float"]
             rng.shuffle(kinds_pool)
 
         def mkfields(nf, depth, tag):
             fs = []
             for j in range(nf):
-                k = kinds_pool.pop() if kinds_pool and depth == 0 else rng.choice(LEAF_KINDS + ["arr:char", "arr:int", "arr:ptr"])
+                k = kinds_pool.pop() if kinds_pool and depth == 0 else rng.choice(LEAF_KINDS + ["arr:char", "arr:int", "arr:ptr", "arr2:short"])
                 nm = f"m{j}"
                 if k == "nested":
                     if depth >= 2:
@@ -51,7 +52,9 @@ def gen_family(seed, nstructs, fid):
                         structs.append((iname, inner))
                         fs.append((nm, ("struct", iname, inner)))
                         continue
-                if k.startswith("arr:"):
+                if k.startswith("arr2:"):
+                    fs.append((nm, ("arr", rng.choice([2, 3]), ("arr", rng.choice([2, 3]), ("leaf", k[5:])))))
+                elif k.startswith("arr:"):
                     fs.append((nm, ("arr", rng.choice([1, 2, 3, 5]), ("leaf", k[4:]))))
                 else:
                     fs.append((nm, ("leaf", k)))
@@ -63,13 +66,22 @@ def gen_family(seed, nstructs, fid):
     return structs, tops
 
 
+def arr_dims(t):
+    """(dims, leaf kind) of a (possibly multi-dimensional) array type"""
+    dims = []
+    while t[0] == "arr":
+        dims.append(t[1]); t = t[2]
+    return dims, t[1]
+
+
 def cdecl(t, nm):
     if t[0] == "leaf":
         c = INTS[t[1]][0] if t[1] in INTS else OTHER[t[1]]
         return f"{c} {nm};"
     if t[0] == "arr":
-        c = INTS[t[2][1]][0] if t[2][1] in INTS else OTHER[t[2][1]]
-        return f"{c} {nm}[{t[1]}];"
+        dims, k = arr_dims(t)
+        c = INTS[k][0] if k in INTS else OTHER[k]
+        return f"{c} {nm}" + "".join(f"[{d}]" for d in dims) + ";"
     return f"{t[1]} {nm};"
 
 
@@ -77,8 +89,9 @@ def refl_type(t):
     if t[0] == "leaf":
         return INTS[t[1]][0] if t[1] in INTS else OTHER[t[1]]
     if t[0] == "arr":
-        c = INTS[t[2][1]][0] if t[2][1] in INTS else OTHER[t[2][1]]
-        return f"{c}[{t[1]}]"
+        dims, k = arr_dims(t)
+        c = INTS[k][0] if k in INTS else OTHER[k]
+        return f"{c}" + "".join(f"[{d}]" for d in dims)
     return t[1]
 
 
@@ -96,7 +109,8 @@ def gdecl(t, nm):
     if t[0] == "leaf":
         return f"{gleaf(t[1])} {nm};"
     if t[0] == "arr":
-        return f"{gleaf(t[2][1])} {nm}[{t[1]}];"
+        dims, k = arr_dims(t)
+        return f"{gleaf(k)} {nm}" + "".join(f"[{d}]" for d in dims) + ";"
     return f"G_{t[1]}<A> {nm};"
 
 
@@ -107,10 +121,11 @@ def visit_body(fields, obj):
             m = "i" if t[1] in INTS or t[1] in ("float", "double", "enum") else "f" if t[1] == "fn" else "p"
             out.append(f"v.{m}({obj}.{nm});")
         elif t[0] == "arr":
-            k = t[2][1]
+            import itertools
+            dims, k = arr_dims(t)
             m = "i" if k in INTS or k in ("float", "double", "enum") else "f" if k == "fn" else "p"
-            for i in range(t[1]):
-                out.append(f"v.{m}({obj}.{nm}[{i}]);")
+            for idx in itertools.product(*[range(d) for d in dims]):
+                out.append(f"v.{m}({obj}.{nm}" + "".join(f"[{i}]" for i in idx) + ");")
         else:
             out.append(f"visit_{t[1]}(v, {obj}.{nm});")
     return " ".join(out)
@@ -163,7 +178,11 @@ def leaves(fields):
         if t[0] == "leaf":
             out.append(t[1])
         elif t[0] == "arr":
-            out += [t[2][1]] * t[1]
+            dims, k = arr_dims(t)
+            n = 1
+            for d in dims:
+                n *= d
+            out += [k] * n
         else:
             out += leaves(t[2])
     return out
@@ -197,8 +216,12 @@ def layout(abi, fields):
         if t[0] == "leaf":
             offs.append(off)
         elif t[0] == "arr":
-            es, _ = size_align(abi, t[2])
-            offs += [off + i * es for i in range(t[1])]
+            dims, k = arr_dims(t)
+            es, _ = size_align(abi, ("leaf", k))
+            n = 1
+            for d in dims:
+                n *= d
+            offs += [off + i * es for i in range(n)]
         else:
             _, _, inner = layout(abi, t[2])
             offs += [off + o for o in inner]
